@@ -505,8 +505,9 @@ theorem step_get {s : State} (op : Op) {k : Nat} {w : Waiter} (hk : s.ws[k]? = s
       simp only
       by_cases hdn : hd.done = true
       · simp only [hdn, if_true]; exact same trivial
-      · simp only [hdn, deliver_eq, List.getElem?_map, hk]
-        exact ⟨_, rfl, Or.inl ⟨h, hd.μ, ⟨rfl, hd, hh, by simpa using hdn, rfl⟩, rfl⟩⟩
+      · have hdf : hd.done = false := by simpa using hdn
+        simp only [hdf, Bool.false_eq_true, if_false, deliver_eq, List.getElem?_map, hk]
+        exact ⟨_, rfl, Or.inl ⟨h, hd.μ, ⟨rfl, hd, hh, hdf, rfl⟩, rfl⟩⟩
   | timeout j =>
     simp only [step]
     cases hj : s.ws[j]? with
@@ -751,12 +752,13 @@ theorem step_hs {s : State} (op : Op) {h : Nat} {hd : Handling} (hh : s.hs[h]? =
       simp only
       by_cases hdn : hj'.done = true
       · simp only [hdn, if_true]; exact ⟨hd, hh, rfl, rfl, fun x => x⟩
-      · simp only [hdn]
+      · have hdf : hj'.done = false := by simpa using hdn
+        simp only [hdf, Bool.false_eq_true, if_false]
         rw [List.getElem?_set]
         by_cases hjh : j = h
         · subst hjh
           rw [hh] at hj; cases hj
-          exact ⟨_, by simp [hlt], rfl, rfl, fun _ => rfl⟩
+          exact ⟨{ hd with done := true }, by simp [hlt], rfl, rfl, fun _ => rfl⟩
         · exact ⟨hd, by simp [hjh, hh], rfl, rfl, fun x => x⟩
   | create kd m => exact same rfl
   | connState c b => exact same rfl
